@@ -501,11 +501,26 @@ def c06_one(beh, seed, sandbox):
     out3 = os.path.join(sandbox, "out3")
     exc3, _ = naming.run_main(extra + ["-o", out3, os.path.join(d, "faulty.cmake"), os.path.join(d, "good.cmake")], sandbox, home)
     page3 = os.path.exists(os.path.join(out3, "faulty.rst"))
+    # a re-run: the output directory holds the page of an earlier, valid revision and the faulty revision arrives with
+    # an older modification time (a restored backup, cp -p): it is read and rejected all the same
+    exc4 = "not run"
+    if seed % 3 == 0:
+        out4 = os.path.join(sandbox, "out4")
+        mod = os.path.join(d, "rerun.cmake")
+        with open(mod, "w") as fh:
+            fh.write("function(valid_revision)\nendfunction()\n")
+        naming.run_main(["-o", out4, mod], sandbox, home)
+        with open(mod, "w", encoding="utf-8", newline="") as fh:
+            fh.write(text)
+        os.utime(mod, (946684800, 946684800))
+        exc4, _ = naming.run_main(["-o", out4, mod], sandbox, home)
+        os.unlink(mod)
     toks, errs = real_lex(text)
     skipped = bool(errs)
     obs = {"single_file": {"failed": exc1 is not None, "exc": exc1, "page_written": page1},
            "directory": {"failed": exc2 is not None, "exc": exc2, "page_written": page2},
            "two_inputs": {"failed": exc3 is not None, "exc": exc3, "page_written": page3},
+           "rerun_with_older_mtime": {"failed": exc4 is not None, "exc": exc4},
            "lexer_skipped_characters": skipped}
     lookalike = any(nm == "Unquoted_argument" and _re.match(r"^\[(=*)\[", text[a:b + 1])
                     and not _re.match(r"^\[(=*)\[.*\]\1\]$", text[a:b + 1], _re.S) for nm, a, b in toks)
@@ -518,7 +533,7 @@ def c06_one(beh, seed, sandbox):
     if ref_rejects:
         def status_ok(exc):
             return exc is not None and not exc.startswith("SystemExit: 0") and not exc.startswith("SystemExit: None")
-        if not status_ok(exc1) or page1 or not status_ok(exc2) or page2 or not status_ok(exc3) or page3:
+        if not status_ok(exc1) or page1 or not status_ok(exc2) or page2 or not status_ok(exc3) or page3 or not status_ok(exc4):
             return {"verdict": "viol", "case": case, "expected": "error reported, non-zero status, no .rst for the faulty file",
                     "observed": obs, "why": "an invalid file is accepted or documentation is written for it", "drift": drift}
     if skipped and (page1 or page2 or page3):
